@@ -97,6 +97,7 @@ RLUfunc(f, x, y) ==
      ELSE IF RTag(x) = "rl" /\ RTag(y) = "rl" /\ Len(x[3]) # Len(y[3]) THEN R_UNSPEC
      ELSE IF badpy(x) \/ badpy(y) THEN R_UNSPEC
      ELSE IF NoLoop(f, rt) THEN R_REFUSED
+     ELSE IF \E i \in 1..n : ~BitInRegime(f, rt, V(x, i), V(y, i)) THEN R_UNSPEC
      ELSE <<"rl", OutType(f, rt), [i \in 1..n |-> F2(f, rt, V(x, i), V(y, i))], RTag(x) = "rl" /\ RTag(y) = "rl">>
 RLReduce(name, dt, a) ==
   IF a = <<>> THEN R_UNSPEC
@@ -106,9 +107,15 @@ RLReduce(name, dt, a) ==
          [] name = "max" -> IF IsFlt(dt) /\ \E i \in DOMAIN a : IsNaN(a[i]) THEN R_UNSPEC ELSE <<"scalar", dt, ReduceSeq("maximum", dt, a)>>
          [] name = "mean" -> IF dt = "b1" THEN R_UNSPEC ELSE <<"scalar", MeanType(dt), MeanSeq(dt, a)>>
          [] OTHER -> R_UNSPEC
-RLConcat(arrs) ==       \* arrs: sequence of <<dt, seq>>, same dtype
-  IF arrs = <<>> \/ \E k \in DOMAIN arrs : arrs[k][1] # arrs[1][1] \/ arrs[k][2] = <<>> THEN R_UNSPEC
-  ELSE <<"rl", arrs[1][1], FlatSeq([k \in DOMAIN arrs |-> arrs[k][2]]), FALSE>>
+\* arrs: sequence of <<dt, seq>>; parts of different dtypes are promoted to their common dtype, as numpy's concatenate does
+RECURSIVE RLCatDTFrom(_, _, _)
+RLCatDTFrom(arrs, k, acc) == IF k > Len(arrs) THEN acc ELSE RLCatDTFrom(arrs, k + 1, ResultType(acc, arrs[k][1]))
+RLCatDT(arrs) == RLCatDTFrom(arrs, 2, arrs[1][1])
+RLConcat(arrs) ==
+  IF arrs = <<>> \/ \E k \in DOMAIN arrs : arrs[k][2] = <<>> THEN R_UNSPEC
+  ELSE LET dt == RLCatDT(arrs) IN
+       IF \E k \in DOMAIN arrs : \E i \in DOMAIN arrs[k][2] : ~CastOK(arrs[k][1], dt, arrs[k][2][i]) THEN R_UNSPEC
+       ELSE <<"rl", dt, FlatSeq([k \in DOMAIN arrs |-> [i \in DOMAIN arrs[k][2] |-> Cast(arrs[k][1], dt, arrs[k][2][i])]]), FALSE>>
 
 RLExpect(c) ==
   LET op == c[1] IN
